@@ -14,7 +14,7 @@ import re
 from sa import norm
 from sa.errors import AnalysisError
 from sa.flow import Flow, Site
-from sa.model import Repo
+from sa.model import Func, Repo
 from sa.norm import T
 from sa.pipeline import pipelines
 from sa.report import Check
@@ -180,6 +180,7 @@ def symmetric(repo: Repo, chk: Check) -> None:
                    "the back-edge clause has no further condition",
                    f"the back-edge barrier is only requested under additional condition(s) {extra}: loops for which that test fails lose the barrier "
                    "between iteration i's consumer and iteration i+1's producer")
+    every_pair(repo, chk, f, fl, blocks)
     # resets and insertion point
     ins = [s for s in fl.calls("insert_op") if s.reachable]
     ok_ins = any(len(s.node.args) > 1 and norm.match(T("InsertPoint.before($o)"), s.node.args[1]) is not None and bool(has_fact(s, ["$o in $l"])) for s in ins)
@@ -280,3 +281,106 @@ def order(repo: Repo, chk: Check) -> None:
                    f"[{label}] ... InsertSyncBarrier, {', '.join(seq[sync[-1] + 1 : d]) or '-'}, DispatchRegions ... SNAXToFunc",
                    f"[{label}] passes {between} run between the last InsertSyncBarrier and DispatchRegions / InsertSyncBarrier after dispatching: {late_sync} / "
                    f"SNAXToFunc after dispatch: {tofunc_ok}")
+
+
+# --------------------------------------------------------------------------- no dependency pair is skipped unsoundly
+NOT_WRITTEN = ["$v not in $o.outputs", "$v is not $o.destination", "$v is $o.source", "$v not in $o.results", "$v not in $o.outs", "$v != $o.destination"]
+
+
+def _true_paths(helper: Func, repo: Repo) -> list[list[ast.expr]]:
+    """for every way `helper` can return a truthy value: the atoms known to hold (path facts + the returned condition)"""
+    hfl = Flow(helper, repo)
+    out: list[list[ast.expr]] = []
+    for sr in hfl.stmts(ast.Return):
+        if not sr.reachable or sr.node.value is None:  # type: ignore[attr-defined]
+            continue
+        v = sr.node.value  # type: ignore[attr-defined]
+        if isinstance(v, ast.Constant) and not v.value:
+            continue
+        base = [x.expr for x in sr.facts if x.kind == "atom"]
+        if isinstance(v, ast.Constant):
+            out.append(base)
+        else:
+            out.append(base + [norm.canon(sr.expand(a)) for a in norm.atoms(v, True)])
+    return out
+
+
+def _read_only_evidence(atoms: list[ast.expr], o: str, v: str) -> bool:
+    for a in atoms:
+        if norm.any_match(NOT_WRITTEN, a, {"o": o, "v": v}) is not None:
+            return True
+    return False
+
+
+def skip_is_sound(repo: Repo, f: Func, cond: ast.expr, ops: list[str]) -> tuple[bool, str]:
+    """a skipped (producer, consumer) pair is harmless only if neither op writes the shared value"""
+    atoms = norm.atoms(cond, True)
+    covered: set[str] = set()
+    for a in atoms:
+        if isinstance(a, ast.Call) and isinstance(a.func, ast.Name) and len(a.args) >= 2:
+            helper = repo.try_func(f.module.relpath, a.func.id)
+            if helper is None:
+                return False, f"the helper {a.func.id} cannot be resolved"
+            hp = [x for x in helper.params if x not in ("self", "cls")]
+            if len(hp) < 2:
+                return False, f"{a.func.id} has fewer than two parameters"
+            paths = _true_paths(helper, repo)
+            if not paths:
+                return False, f"{a.func.id} never returns a truthy value the analysis can follow"
+            for pth in paths:
+                if not _read_only_evidence(pth, hp[0], hp[1]):
+                    txt = " and ".join(ast.unparse(x) for x in pth)[:160]
+                    return False, (f"{a.func.id}() returns True on a path where nothing says the op does not also WRITE the value ({txt}): an op updating a buffer in place "
+                                   "(listed in both ins and outs) counts as a reader")
+            covered.add(ast.unparse(a.args[0]))
+        else:
+            for o in ops:
+                if any(norm.any_match([t.replace("$o", o).replace("$v", "$_")], a) is not None for t in NOT_WRITTEN):
+                    covered.add(o)
+    missing = [o for o in ops if o not in covered]
+    if missing:
+        return False, f"nothing establishes that {missing} does not write the shared value"
+    return True, ""
+
+
+def every_pair(repo: Repo, chk: Check, f: Func, fl: Flow, blocks: dict) -> None:
+    chk.rule(
+        "C13.every-pair",
+        "every (op, user-of-its-operand) pair reaches the two dispatch tests; a pair may be skipped beforehand only under a condition that "
+        "establishes, for both ops, that they do not write the shared value",
+        floor=1,
+    )
+    loops = [n for n in ast.walk(f.node) if isinstance(n, ast.For) and norm.match(T("$v.uses"), n.iter) is not None
+             and any(b is x for b in blocks.values() for x in ast.walk(n))]
+    if len(loops) != 1:
+        raise AnalysisError(f"{f.where}: loop over the uses of an operand not found")
+    lp = loops[0]
+    use_var = lp.target.id if isinstance(lp.target, ast.Name) else None
+    first = min(b.lineno for b in blocks.values())
+    skips = []
+    for st in lp.body:
+        if st.lineno >= first:
+            break
+        if isinstance(st, ast.If) and st.body and isinstance(st.body[-1], (ast.Continue, ast.Break)) and not st.orelse:
+            skips.append(st)
+        elif not isinstance(st, (ast.Expr, ast.Assign, ast.AnnAssign, ast.Pass)):
+            skips.append(st)
+    nested = [b for b in blocks.values() if not any(b is st for st in lp.body)]
+    key = f"{f.key}:uses-loop"
+    if nested:
+        chk.bad("C13.every-pair", key + ":nested", f"{f.module.relpath}:{nested[0].lineno}",
+                "the dispatch tests are nested under a further condition: pairs for which it fails never request a barrier")
+        return
+    if not skips:
+        chk.ok("C13.every-pair", key, f"{f.module.relpath}:{lp.lineno}", "no pair is skipped before the dispatch tests")
+        return
+    m = norm.match(T("dispatch_to_dm($p, $c) and not dispatch_to_dm($u, $c)"), blocks["dispatch_to_dm"].test)
+    ops = [ast.unparse(m["p"]), ast.unparse(m["u"])] if m is not None else []
+    for i, st in enumerate(skips):
+        if not isinstance(st, ast.If):
+            chk.bad("C13.every-pair", f"{key}:skip#{i + 1}", f"{f.module.relpath}:{st.lineno}", f"a {type(st).__name__} statement precedes the dispatch tests inside the uses loop")
+            continue
+        ok, why = skip_is_sound(repo, f, st.test, ops)
+        chk.result(ok, "C13.every-pair", f"{key}:skip#{i + 1}", f"{f.module.relpath}:{st.lineno}",
+                   f"pairs skipped under `{ast.unparse(st.test)[:80]}` are read/read pairs: neither op writes the value",
+                   f"pairs are skipped under `{ast.unparse(st.test)[:80]}` but {why}")
